@@ -19,7 +19,8 @@ pub(crate) mod vx {
 }
 
 /// A gate a session task passes right after on_established() (initial dump buffered, peer
-/// channel registered, nothing flushed yet).  Unarmed gates are no-ops.  The C01 harness arms
+/// channel registered, nothing flushed yet), and - under the key `tables + EVENTS` - each time it
+/// has taken an event off its peer channel, before handling it.  Unarmed gates are no-ops.  The C01 harness arms
 /// one to hold the session at exactly that point while RIB changes queue up, i.e. to produce
 /// the "change delivered before the first flush of the initial dump" interleaving.
 #[allow(dead_code)]
@@ -27,6 +28,9 @@ pub(crate) mod gate {
     use std::collections::HashMap;
     use std::net::IpAddr;
     use std::sync::{Arc, Mutex};
+
+    /// key offset of the gate passed before each peer event is handled
+    pub(crate) const EVENTS: usize = 1;
 
     struct G {
         armed: bool,
